@@ -83,7 +83,7 @@ type VerifC08Shape struct {
 	Kind   string `json:"kind"`   // single | manyA | bigtxt | mix
 	Bulk   string `json:"bulk"`   // section of the bulk records: an | ns | ex
 	Fill   string `json:"fill"`   // section of the exact-size filler TXT record
-	HOpt   string `json:"hopt"`   // none | v0 | v1do
+	HOpt   string `json:"hopt"`   // none | v0 | v1do | v0ka (OPT with an empty keep-alive option, as queries carry it)
 	HTC    bool   `json:"htc"`    // the handler sets TC itself
 	Target int    `json:"target"` // wanted packed size of the handler response
 }
@@ -166,10 +166,16 @@ func VerifC08BuildResp(req *dns.Msg, s VerifC08Shape) (m *dns.Msg) {
 		opt.SetUDPSize(1400)
 		opt.SetVersion(1)
 		opt.SetDo()
+	case "v0ka":
+		// a handler that hands the option of the query back (it is empty there: 4 bytes; the server fills in
+		// its time-out: 6 bytes)
+		opt = &dns.OPT{Hdr: dns.RR_Header{Name: ".", Rrtype: dns.TypeOPT}}
+		opt.SetUDPSize(4096)
+		opt.Option = append(opt.Option, &dns.EDNS0_TCP_KEEPALIVE{Code: dns.EDNS0TCPKEEPALIVE})
 	}
 	optLen := 0
 	if opt != nil {
-		optLen = 11
+		optLen = 11 + 4*len(opt.Option)
 	}
 	hdr := func(name string, t uint16) dns.RR_Header {
 		return dns.RR_Header{Name: name, Rrtype: t, Class: dns.ClassINET, Ttl: 60}
@@ -453,6 +459,10 @@ func (g *VerifC08Gen) Next(proto string, sizes []uint16, cfg int) (c VerifC08Cas
 	sh.Bulk = []string{"an", "an", "ns", "ex"}[r.Intn(4)]
 	sh.Fill = []string{"an", "ns", "ex"}[r.Intn(3)]
 	sh.HOpt = []string{"none", "none", "none", "v0", "v0", "v1do"}[r.Intn(6)]
+	if katr && c.Req.Opt && c.Req.KA && r.Intn(3) == 0 {
+		// (only where a keep-alive option belongs: a stream transport, asked for by the query)
+		sh.HOpt = "v0ka"
+	}
 	sh.HTC = r.Intn(25) == 0
 	limit := VerifC08Limit(proto, c.Req, cfg)
 	// bytes the server adds to the handler response before it is written
@@ -465,6 +475,9 @@ func (g *VerifC08Gen) Next(proto string, sizes []uint16, cfg int) (c VerifC08Cas
 	}
 	if c.Req.Opt && c.Req.KA && katr {
 		add += 6
+		if sh.HOpt == "v0ka" {
+			add -= 4
+		}
 	}
 	padded := c.Req.Opt && c.Req.Pad && stdenc
 	var delta int
